@@ -328,6 +328,7 @@ func (s *parallelSolverImpl) Solve(
 						bestSolutionMutex.RLock()
 						solution := bestSolution.Copy()
 						bestSolutionMutex.RUnlock()
+						verifNote("worker_copied", r, solution.Score())
 
 						verifYield("worker_pop")
 						solutionsMutex.Lock()
@@ -459,6 +460,7 @@ func (s *parallelSolverImpl) Solve(
 			bestSolutionMutex.Lock()
 			bestSolution = newBestSolution
 			bestSolutionMutex.Unlock()
+			verifNote("agg_best", newBestSolution.Score())
 
 			reportBestSolution(solutionContainer{
 				Solution:   solverResult.Solution.Copy(),
